@@ -606,6 +606,10 @@ def c02(sc, V):
         for l in s.lines:
             if l[0] == "spawn":
                 pids_of.setdefault(l[2], []).append(l[1])
+            if l[0] == "ev" and l[2] == "remove":
+                # the watcher is gone; a later watcher of the same name is a different watcher with its own workers
+                for key in [k for k in pids_of if k.lower() == l[1]]:
+                    del pids_of[key]
         if s.cmd() == "rm" and s.props().get("nostop"):
             n = s.props().get("name")
             if isinstance(n, str):
